@@ -62,6 +62,7 @@ func main() {
 }
 
 func runCheck(prop, tier string, verbose bool) (code int) {
+	thoroughTier = tier == "thorough"
 	seed := 0
 	if s := os.Getenv("VERIF_SEED"); s != "" {
 		seed, _ = strconv.Atoi(s)
